@@ -39,13 +39,15 @@ pub fn compile_source(src: &str, modules: &HashMap<Vec<String>, String>, b: &Bui
         let mut program = Program::new();
         let mut cache = ModuleCache::new();
         let resolver = PackageResolver::memory(modules.clone());
+        // parameter_type_id is a TYPE id: register the nil type (as the CLI does since the F26 fix)
+        let parameter_type_id = program.register_type(Type::nil());
         let compiled: Compiled = Compiler::compile(
             ast,
             &HashMap::new(),
             &mut cache,
             &resolver,
             &mut program,
-            quiver_core::types::NIL,
+            parameter_type_id,
             &HashMap::new(),
             b,
             None,
